@@ -165,7 +165,7 @@ package balloons
 //@ pure cchHas(cch cache.Cache, id string) bool
 //@ iface github.com/containers/nri-plugins/pkg/resmgr/cache.Cache.LookupContainer
 //@   modifies nothing
-//@   ensures result0 == cchCtr(self, arg0) && result1 == cchHas(self, arg0) && (result1 ==> result0 != nil)
+//@   ensures result0 == cchCtr(self, arg0) && result1 == cchHas(self, arg0) && (result1 ==> result0 != nil && ctrID(result0) == arg0)
 //@ iface github.com/containers/nri-plugins/pkg/resmgr/cache.Cache.LookupPod
 //@   modifies nothing
 //@ iface github.com/containers/nri-plugins/pkg/resmgr/cache.Container.SetCPUShares
@@ -207,6 +207,8 @@ package balloons
 
 // memory side of pinning (libmem allocation and the memory-node strings) is outside C02: ASSUMED frames.
 // (allocMem changes libmem.Allocator internals, which no contract of this package reads.)
+// (callers of allocMem in this package see only this assumed frame; allocMem itself is additionally VERIFIED against
+// its C04 contract in verif_contracts_c04.go, as a `standalone` contract that call sites do not use)
 //@ assume-contract (*balloons).allocMem
 //@   modifies pinnedMems
 //@ assume-contract (*balloons).closestMems
